@@ -342,13 +342,13 @@ let s_sched which g obs =
   (model, Judge.judge_sched which g obs pre eui)
 
 let register_all register =
-  List.iter (fun c -> register ("sched" ^ c) (s_sched c)) ["C03"; "C05"; "C06"; "C07"; "C09"; "C17"];
+  List.iter (fun c -> register ("sched" ^ c) (s_sched c)) ["C03"; "C04"; "C05"; "C06"; "C07"; "C09"; "C17"];
   register "keygen" s_keygen;
   register "registry" Regsuite.s_registry;
   register "codec" Regsuite.s_codec;
   register "router" s_router;
   register "routerconc" s_routerconc;
-  List.iter (fun n -> register ("gw" ^ n) Gwsuite.s_gw) ["C11"; "C15"; "C16"; "C17"];
+  List.iter (fun n -> register ("gw" ^ n) Gwsuite.s_gw) ["C01"; "C11"; "C15"; "C16"; "C17"];
   register "histC01" (s_hist Judge.judge_c01);
   register "histC03" (s_hist Judge.judge_c03);
   register "histC07" (s_hist Judge.judge_c07);
